@@ -249,7 +249,11 @@ pub fn run(ctx: &Ctx) -> Outcome {
         // matcher's groups for the same matches (patterns with reference semantics only)
         let rfm = if diff::default_exclude(p).is_none() && !p.has_f1() && !p.has_keepout_in_lookbehind() && p.n_groups() >= 1 { refm::compile(p) } else { None };
         let mut nontrivial = false;
-        for t in &texts {
+        for (ti, t) in texts.iter().enumerate() {
+            // the larger patterns (products, random trees) get every second text, rotating
+            if p.size() > 3 && (ti + i) % 2 == 1 {
+                continue;
+            }
             if let Some((r, ng)) = &rfm {
                 let _ = acc.take_hooks();
                 if let Some((api, want, got)) = reference_groups(&res[0], r, *ng, t) {
@@ -294,7 +298,7 @@ pub fn run(ctx: &Ctx) -> Outcome {
     });
     let mut out = Outcome::new(acc);
     out.distinct_nontrivial = out.acc.distinct;
-    out.rule = format!("{} + \\G/\\K variants of the small trees, every second pattern spelled with named groups; x all {} texts over {{a,b,c,é,\\n,-}} up to length 3 x limits 0..3 x replacers {{\"<>\" as &str / String / NoExpand / closure, identity closure, NoExpand(\"$1\"), templates $0 [$1] ${{g1}} $$ $2-$1}}: result = text with the first n captures_iter matches replaced by the replacer's own output (Captures::expand for templates), other bytes untouched; Cow::Borrowed iff no match; the three spellings of a constant agree (fast path vs captures path); replacers with state (counting closure, recording closure, hand-written Replacer through by_ref): the i-th replaced match gets the i-th call's output and the calls see the matches in text order; for patterns with reference semantics and groups the output of \"[$1|$2]\" as template and as closure must show the groups of the reference matcher's path for every match; under backtrack limits 0 and 2 (every third pattern) a search error among the matches to be replaced must come back as Err, and the calls return, never panic. Non-trivial: distinct patterns where >= 1 but not all matches were replaced, or an empty match was replaced.", sp.describe, texts.len());
+    out.rule = format!("{} + \\G/\\K variants of the small trees, every second pattern spelled with named groups; x all {} texts over {{a,b,c,é,\\n,-}} up to length 3 (patterns of more than 3 nodes: a rotating half of them) x limits 0..3 x replacers {{\"<>\" as &str / String / NoExpand / closure, identity closure, NoExpand(\"$1\"), templates $0 [$1] ${{g1}} $$ $2-$1}}: result = text with the first n captures_iter matches replaced by the replacer's own output (Captures::expand for templates), other bytes untouched; Cow::Borrowed iff no match; the three spellings of a constant agree (fast path vs captures path); replacers with state (counting closure, recording closure, hand-written Replacer through by_ref): the i-th replaced match gets the i-th call's output and the calls see the matches in text order; for patterns with reference semantics and groups the output of \"[$1|$2]\" as template and as closure must show the groups of the reference matcher's path for every match; under backtrack limits 0 and 2 (every third pattern) a search error among the matches to be replaced must come back as Err, and the calls return, never panic. Non-trivial: distinct patterns where >= 1 but not all matches were replaced, or an empty match was replaced.", sp.describe, texts.len());
     out.assumptions = vec!["template expansion itself is judged by C12; find_iter by C08".into()];
     let eh = out.acc.get("error-histories");
     out.extra = json!({"error_histories": eh});
